@@ -123,14 +123,15 @@ CLAIMED["C15"] = {
 
 CLAIMED["C10"] = {
     "text": "Value preservation is proved for all expressions and all real assignments (Verus, structural induction through the function's own contract): whenever the original is defined, Exp::flatten (every arm: both distributions, "
-            "negation pulling, division distribution, structural recursion) and the arithmetic arms of Exp::simplify (Add, Sub, Mul, Div, unary minus, Abs: constant folding, 0/1 identities, the zero-product rule, no folding through a zero divisor) "
+            "negation pulling, division distribution, structural recursion) and the arithmetic arms (Add, Sub, Mul, Div, unary minus, Abs: constant folding, 0/1 identities, the zero-product rule, no folding through a zero divisor) and the logic arms not / xor / implies / iff (as variants and as binary operators) of Exp::simplify "
             "return an expression that is defined and has the same value; finite constants stay finite. "
             "'A division by zero or by a non-constant is never rewritten away' is proved for the arithmetic fragment in its semantic form: at every assignment where the original is undefined (a division by zero, e.g. 1/x at x = 0) "
             "the simplified expression is undefined too (U10.keep / U10.keepu); this rests on the guard of the zero-product rule, proved to be exactly 'contains a division by zero or by a non-literal' (U10.div). "
             "Idempotence and the behaviour on abs/min/max-wrapped divisions are checked only by a BOUNDED search on the real code (labelled). "
-            "NOT decided: the logic / min / max arms of simplify (assumed arms), termination, and the constant-spelling sentence of the property (bound inference before simplification).",
+            "NOT decided: the n-ary and / or arms (simplify_logic_nary returns a single remaining operand itself, which equals the 0/1 value of the conjunction only for 0/1-valued operands: needs a typing hypothesis) and the min / max arms (assumed arms), "
+            "termination, and the constant-spelling sentence of the property (bound inference before simplification).",
     "note": "Trusted: prelude/f64_layer.rs (floats as exact reals: a rewrite that is exact over the reals may still change a rounded result). Assumed arms are listed in the evidence. "
-            "Exp::simplify is split over four queries (binary / unary arms x two clause groups) because the joint query is unstable in the solver.",
+            "Exp::simplify is split over five queries (binary / unary / logic arms, two clause groups) because the joint query is unstable in the solver.",
     "technique": "Verus contracts sem(r, env) == sem(self, env) and 'undefined stays undefined' woven into extracted Exp::flatten / Exp::simplify; executable-postcondition search for counterexamples and bounded clauses",
     "design_ref": "DESIGN.md §5 C10",
 }
